@@ -380,6 +380,38 @@ func churnJob(j Job, r *JobResult) {
 			}
 		}
 	}
+	// sliding windows: w keys alive, the window moves across the whole universe one key at a time — upwards
+	// (insert the next greater key, remove the least) and downwards, inserting first or removing first; the
+	// tree keeps its size while every key is inserted and removed once (a queue-like use of an ordered map)
+	for _, w := range []int{3, 8, 17, 33} {
+		if w >= u {
+			continue
+		}
+		for _, dir := range []string{"upwards", "downwards"} {
+			for _, first := range []string{"Put first", "Remove first"} {
+				key := func(i int) int {
+					if dir == "downwards" {
+						return u - 1 - i
+					}
+					return i
+				}
+				var q []Op
+				for i := 0; i < w; i++ {
+					q = append(q, put(key(i)))
+				}
+				for i := w; i < u; i++ {
+					if first == "Put first" {
+						q = append(q, put(key(i)), del(key(i-w)))
+					} else {
+						q = append(q, del(key(i-w)), put(key(i)))
+					}
+				}
+				if run(q, fmt.Sprintf("a window of %d keys sliding %s across %d keys (%s)", w, dir, u, first)) {
+					return
+				}
+			}
+		}
+	}
 	if two {
 		// bidirectional maps: at EVERY point of every drain (after an ascending fill) one colliding Put -
 		// two-sided (key bound, value held by another key), same key with a free value, free key with a
@@ -418,7 +450,7 @@ func churnJob(j Job, r *JobResult) {
 			}
 		}
 	}
-	r.St.Samples = []any{map[string]any{"system": sys.Name(), "family": "fill in {ascending, descending, zig-zag, inside-out, stride-golden, stride-minor, bit-reversal} x delete in those seven or every-second-first; and with half deleted, re-inserted ascending / descending, all deleted; sawtooth fills (a Remove after every third Put, re-inserted later); bidirectional maps: at every point of every drain one colliding Put (three kinds) and a Remove", "keys": u}}
+	r.St.Samples = []any{map[string]any{"system": sys.Name(), "family": "fill in {ascending, descending, zig-zag, inside-out, stride-golden, stride-minor, bit-reversal} x delete in those seven or every-second-first; and with half deleted, re-inserted ascending / descending, all deleted; sawtooth fills (a Remove after every third Put, re-inserted later); sliding windows of 3, 8, 17, 33 keys moving up / down across the universe; bidirectional maps: at every point of every drain one colliding Put (three kinds) and a Remove", "keys": u}}
 }
 
 func init() { jobKinds["churn"] = churnJob }
